@@ -126,6 +126,9 @@ def classify(dg, d, text, label):
             return 'module_name_not_identifier', dict(code=code, construct='"-" in a module name', family=family(line.split()[1] if line.split()[0] == 'module' else line.split()[0]))
         if line.lstrip().startswith('assign') and 'module' not in before:
             return 'inlinable_root_emits_bare_assign', dict(code=code, construct='assign outside any module')
+        if re.search(r'=\s*\{?\s*\}\s*;', line):
+            # a concatenation of zero wires (a width-0 intermediate net)
+            return 'empty_concatenation', dict(code=code, construct='concatenation without operands')
         if 'reserved_word' in code:
             return 'reserved_word_as_identifier', dict(code=code, where=fam)
         fields['construct'] = re.sub(r'\d+', 'N', dg.detail.split(': ', 1)[-1])[:80]
@@ -186,6 +189,11 @@ def shape_of(obj, gen):
     return (type(obj).__name__, interface_of(obj, gen), tuple(extra), tuple(kids))
 
 
+def alias_pattern(obj):
+    ws = [id(p.wire) for p in list(obj.inPorts) + list(obj.outPorts) if p.wire is not None]
+    return tuple(ws.index(w) for w in ws)
+
+
 def check_interchangeable(run, root, label, case):
     import py4hw
     import py4hw.rtl_generation as rg
@@ -209,6 +217,14 @@ def check_interchangeable(run, root, label, case):
         run.count('shared_module_groups')
         first = interface_of(objs[0], gen)
         s0 = shape_of(objs[0], gen)
+        a0 = alias_pattern(objs[0])
+        for o in objs[1:]:
+            if alias_pattern(o) != a0:
+                # the emitted body names nets by wire object: ports tied to one wire collapse into one name
+                run.violation('named_module_port_aliasing', dict(clause='interchangeable'),
+                              dict(case, module=name, first=a0, other=alias_pattern(o)),
+                              what='%s: objects emitted as %s tie their ports to wires differently (%r vs %r)' % (label, name, a0, alias_pattern(o)))
+                break
         for o in objs[1:]:
             run.count('shared_module_pairs')
             if interface_of(o, gen) != first:
